@@ -10,7 +10,10 @@ RULE = ("random ordered pairs of context-free grammars (shared variable names, 2
         "structurally with the Lean model (same variable numbering, since the model is fed the set-iteration order) "
         "and by bounded language comparison (all words of length <=4) computed from the verified membership oracle. "
         "Non-trivial: first grammar has >=2 productions, one with a body of length >=2.")
-THEOREMS = []
+THEOREMS = ["Pfl.CFG.reverse_lang",
+            "Pfl.CFG.cfgMem_iff",
+            "Pfl.CFG.mem_langUpTo_iff",
+            "Pfl.CFG.langUpTo_nodup"]
 N = 4
 
 
